@@ -367,7 +367,7 @@ func c08VerifyImage(tag, image string, candidates []c14Registry) string {
 }
 
 func runC08(run *common.Run) {
-	run.Rule = "case = one crash image of the on-disk storage directory of a child emulator process driven by a generated admin+data program (CreateTable with GC rules, MutateRow, DropRowRange prefix/all, ModifyColumnFamilies create/update/drop, DeleteTable, re-create): (boundary) the process is frozen with SIGSTOP between two requests and the directory copied; (point) the process freezes itself at an instrumented point inside SetTableMeta / Create / Clear while a request is in flight, the directory is copied and the process killed; (cycle) after such a kill the live directory is restarted and the program continues, up to 5 times; (clean) clean Server.Close stop. Each image is verified by starting a fresh emulator process on a private copy: it must come up, and ListTables/GetTable/full scans/NotFound probes must equal the acknowledged model, the in-flight request being wholly applied or wholly absent. Non-trivial = image taken when the model held at least one table with rows and either a request was in flight or an earlier request had removed something (rows, family, table); distinct by image."
+	run.Rule = "case = one crash image of the on-disk storage directory of a child emulator process driven by a generated admin+data program (CreateTable with GC rules, MutateRow, DropRowRange prefix/all, ModifyColumnFamilies create/update/drop, DeleteTable, re-create): (boundary) the process is frozen with SIGSTOP between two requests and the directory copied; (point) the process freezes itself at an instrumented point inside SetTableMeta / Create / Clear while a request is in flight, the directory is copied and the process killed; (cycle) after such a kill the live directory is restarted and the program continues, up to 5 times; (clean) clean Server.Close stop; (real) the real cbtemulator -dir binary killed with SIGKILL between requests and restarted; (syskill) the child runs under strace and is killed at its N-th unlinkat / rename / mkdir system call, N = 1, 2, ..., over one program in which every fourth request clears a table, then restarted. Each image is verified by starting a fresh emulator process on a private copy: it must come up, and ListTables/GetTable/full scans/NotFound probes must equal the acknowledged model, the in-flight request being wholly applied or wholly absent. Non-trivial = image taken when the model held at least one table with rows and either a request was in flight or an earlier request had removed something (rows, family, table); distinct by image."
 	run.Assumptions = []string{"process death only (SIGSTOP image = what kill -9 leaves: completed syscalls persist); power loss / unsynced page cache is out of scope", "crash points = request boundaries + the instrumented points; kills inside leveldb's own write path are not enumerated"}
 	nprog := run.N(12, 300)
 	scratch, err := os.MkdirTemp("", "verif-c08-")
@@ -386,6 +386,9 @@ func runC08(run *common.Run) {
 			}
 			c08RealBinary(run, p, filepath.Join(scratch, fmt.Sprintf("real%d", p)))
 		})
+	}
+	if run.WantSub("syskill") && !run.TooMany() {
+		c08SyscallKills(run, filepath.Join(scratch, "syskill"))
 	}
 	if !run.WantSub("prog") {
 		return
@@ -712,4 +715,152 @@ func c08RealBinary(run *common.Run, p int, dir string) {
 			run.Case(common.Hash64("real", fmt.Sprint(p, kills, steps)), len(reg) > 0)
 		}
 	}
+}
+
+// c08SyscallKills: crash points INSIDE requests without knowing the implementation: the child emulator runs under
+// `strace -f -e inject=<syscall>:signal=SIGKILL:when=N`, which kills it at the N-th unlinkat / renameat / mkdirat /
+// openat(O_CREAT) ... that one of its threads makes. The same generated program is run from scratch for N = 1, 2, ...
+// until a run completes without the injection firing; after each death the directory is restarted without strace
+// and must serve the acknowledged state, the request that was in flight being wholly applied or wholly absent.
+func c08SyscallKills(run *common.Run, base string) {
+	if _, err := exec.LookPath("strace"); err != nil {
+		run.Inconclusive("strace not available")
+		return
+	}
+	self, _ := os.Executable()
+	syscalls := []string{"unlinkat", "renameat,renameat2,rename", "mkdirat,mkdir"}
+	nprog := run.N(1, 6)
+	maxN := run.N(30, 120)
+	type job struct{ prog, sc, n int }
+	var jobs []job
+	for p := 0; p < nprog; p++ {
+		for sc := range syscalls {
+			for n := 1; n <= maxN; n++ {
+				jobs = append(jobs, job{p, sc, n})
+			}
+		}
+	}
+	// exhausted[prog][sc] = smallest N for which the injection did not fire (larger N are skipped)
+	var mu sync.Mutex
+	exhausted := map[[2]int]int{}
+	common.Parallel(len(jobs), workers(), func(ji int) {
+		jb := jobs[ji]
+		idx := (jb.prog*10+jb.sc)*1000 + jb.n
+		if !run.Want("syskill", idx) || run.TooMany() {
+			return
+		}
+		mu.Lock()
+		lim, ok := exhausted[[2]int{jb.prog, jb.sc}]
+		mu.Unlock()
+		if ok && jb.n > lim {
+			return
+		}
+		dir := filepath.Join(base, fmt.Sprintf("p%d-s%d-n%d", jb.prog, jb.sc, jb.n))
+		_ = os.MkdirAll(dir, 0o777)
+		defer os.RemoveAll(dir)
+		live := filepath.Join(dir, "live")
+		_ = os.MkdirAll(live, 0o777)
+		// child under strace
+		errPath := filepath.Join(dir, "child.err")
+		ef, _ := os.Create(errPath)
+		cmd := exec.Command("strace", "-f", "-o", "/dev/null", "-e", "trace="+syscalls[jb.sc], "-e", fmt.Sprintf("inject=%s:signal=SIGKILL:when=%d", syscalls[jb.sc], jb.n),
+			self, "child", "server", "ldbdisk", live, fmt.Sprint(gen.BaseClock))
+		cmd.Stderr = ef
+		outR, outW, _ := os.Pipe()
+		cmd.Stdout = outW
+		in, _ := cmd.StdinPipe()
+		cmd.SysProcAttr = &syscall.SysProcAttr{Setpgid: true, Pdeathsig: syscall.SIGKILL}
+		if err := cmd.Start(); err != nil {
+			run.Inconclusive("cannot start strace: " + err.Error())
+			return
+		}
+		ef.Close()
+		outW.Close()
+		done := make(chan struct{})
+		go func() { cmd.Wait(); close(done) }()
+		defer func() {
+			_ = syscall.Kill(-cmd.Process.Pid, syscall.SIGKILL)
+			<-done
+			outR.Close()
+			in.Close()
+		}()
+		lineCh := make(chan string, 1)
+		go func() {
+			l, _ := bufio.NewReader(outR).ReadString('\n')
+			lineCh <- strings.TrimSpace(l)
+		}()
+		reg := c14Registry{}
+		firstDef := map[string]map[string]*model.GcRule{}
+		var steps []string
+		var srv *drive.Srv
+		died := false
+		var pre, post c14Registry
+		select {
+		case l := <-lineCh:
+			if !strings.HasPrefix(l, "ADDR ") {
+				died = true // killed during start-up (first start on an empty directory): nothing acknowledged yet
+				pre, post = c14Registry{}, c14Registry{}
+			} else {
+				var err error
+				srv, err = drive.Connect(strings.TrimPrefix(l, "ADDR "))
+				if err != nil {
+					run.Inconclusive("connect: " + err.Error())
+					return
+				}
+				defer srv.Conn.Close()
+			}
+		case <-time.After(90 * time.Second):
+			run.Inconclusive("child under strace did not come up")
+			return
+		}
+		r := run.Rand("C08.syskill", jb.prog) // the same program for every N
+		for step := 0; step < 40 && !died; step++ {
+			req := c08Gen(r, reg, false, false, firstDef)
+			if step%4 == 3 {
+				// every fourth request clears a table (close database, remove directory, re-open)
+				for tries := 0; tries < 200 && !strings.Contains(req.desc, "all=true"); tries++ {
+					req = c08Gen(r, reg, false, false, firstDef)
+				}
+			}
+			st := req.send(srv)
+			steps = append(steps, req.desc+" -> "+st.String())
+			if st.OK() {
+				req.apply(reg)
+				continue
+			}
+			select {
+			case <-done:
+				died = true
+			case <-time.After(300 * time.Millisecond):
+			}
+			if died || st.Code.String() == "Unavailable" {
+				died = true
+				pre = reg
+				post = c08CloneReg(reg)
+				req.apply(post)
+				steps[len(steps)-1] = req.desc + "  [in flight when the process was killed at its " + fmt.Sprint(jb.n) + "-th " + syscalls[jb.sc] + "]"
+				run.Count("syskill_in_flight."+strings.SplitN(req.desc, "(", 2)[0], 1)
+			} else if req.valid {
+				run.Violation("syskill", idx, "valid request failed: "+st.String(), map[string]any{"steps": steps})
+				return
+			}
+		}
+		if !died {
+			mu.Lock()
+			if cur, ok := exhausted[[2]int{jb.prog, jb.sc}]; !ok || jb.n < cur {
+				exhausted[[2]int{jb.prog, jb.sc}] = jb.n
+			}
+			mu.Unlock()
+			run.Count("syskill_runs_without_injection", 1)
+			return
+		}
+		_ = syscall.Kill(-cmd.Process.Pid, syscall.SIGKILL)
+		<-done
+		m := c08VerifyImage(fmt.Sprintf("c08sk-%d", idx), live, []c14Registry{pre, post})
+		run.Count("syskill_images."+syscalls[jb.sc], 1)
+		run.Case(common.Hash64("syskill", fmt.Sprint(idx)), len(pre) > 0)
+		if m != "" {
+			run.Violation("syskill", idx, fmt.Sprintf("process killed at its %d-th %s: %s", jb.n, syscalls[jb.sc], m), map[string]any{"steps": steps})
+		}
+	})
 }
